@@ -80,8 +80,11 @@ class Recorder:
             out = self.orig[0](field, kernel, *a, **k)
             self.calls.append((field.detach().clone(), kernel.detach().clone(), out.detach().clone()))
             return out
+        import inspect
+        sig = inspect.signature(self.orig[1])
         def gpk(*a, **k):
-            self.requests.append((float(k.get('wavelength', float('nan'))), float(k.get('distance', float('nan')))))
+            b = sig.bind(*a, **k); b.apply_defaults()          # by parameter name, however the caller passed them
+            self.requests.append((float(b.arguments.get('wavelength', float('nan'))), float(b.arguments.get('distance', float('nan')))))
             return self.orig[1](*a, **k)
         self.custom, self.gpk = custom, gpk
     def __enter__(self):
